@@ -76,7 +76,13 @@ func (m *c10Machine) cloneFrom(o *c10Machine) { m.cloneFromOpt(o, true) }
 // cloneFromOpt: withHalt=false leaves the halted indication out of the copy - it is not part of
 // States, and the statement lets the outcome of a Step depend on States, the pending request and
 // memory/ports only.
-func (m *c10Machine) cloneFromOpt(o *c10Machine, withHalt bool) {
+func (m *c10Machine) cloneFromOpt(o *c10Machine, withHalt bool) { m.cloneFromKind(o, withHalt, false) }
+
+// cloneFromKind: byValue=true copies the CPU *value* (fork := *cpu) instead of building a fresh CPU from
+// States; the copy gets its own memory and device. A plain struct copy is ordinary Go usage for taking
+// a snapshot, and a copy that keeps pointers into the original (or shares a lazily built table with
+// it) does not "stay equal step for step".
+func (m *c10Machine) cloneFromKind(o *c10Machine, withHalt, byValue bool) {
 	m.mem.CopyFrom(o.mem)
 	// the device answers independently of its history (Fixed), so a copy is its parameters
 	*m.io = obs.IO{X: o.io.X, Y: o.io.Y, Fixed: o.io.Fixed}
@@ -86,6 +92,12 @@ func (m *c10Machine) cloneFromOpt(o *c10Machine, withHalt bool) {
 	}
 	if o.cpu.IO == nil {
 		fresh.IO = nil
+	}
+	if byValue {
+		cp := *o.cpu
+		cp.Memory, cp.IO = fresh.Memory, fresh.IO
+		cp.Interrupt = nil
+		fresh = &cp
 	}
 	if o.cpu.Interrupt != nil {
 		cp := *o.cpu.Interrupt
@@ -191,6 +203,11 @@ func c10Snapshot(a, b *c10Machine, p *c10Prog, only int) ([]string, int) {
 		b.cloneFrom(a)
 		if d := run(b, k, true); d != nil {
 			return d, steps
+		}
+		// a by-value copy of the CPU struct (own memory and device)
+		b.cloneFromKind(a, true, true)
+		if d := run(b, k, true); d != nil {
+			return append([]string{"snapshot taken as a by-value copy of the CPU struct (fork := *cpu) with its own memory copy:"}, d...), steps
 		}
 		// the same without copying the halted indication (compared on everything but that field)
 		b.cloneFromOpt(a, false)
@@ -411,7 +428,11 @@ func checkC10(c *Ctx) {
 					break
 				}
 				a.mem.Poke(a.cpu.PC, codes[j]...)
-				b.cloneFrom(a)
+				if j%2 == 0 {
+					b.cloneFrom(a)
+				} else {
+					b.cloneFromKind(a, true, true) // every other pair: snapshot as a by-value copy of the CPU struct
+				}
 				pa, pb := c02Step(a.cpu), c02Step(b.cpu)
 				pairN[wi*8]++
 				if pa != nil || pb != nil || c10Digest(a) != c10Digest(b) {
